@@ -72,6 +72,7 @@ class Ctx:
         s.allow_go = o.get("allow_go", False)
         s.progress_every = int(os.environ.get("PROGRESS", "20000"))
         s.fresh_feas = o.get('fresh_feas', True)
+        s.heap_strict = o.get('heap_strict', True)
         s.last_feas_solver = None
         s.instrs = 0
         s.solver_calls = 0
@@ -553,6 +554,7 @@ class Interp:
         ot = s.ctx.obj_types
         try:
             heap = dict(sa.heap)
+            E.HEAP_STRICT[0] = s.ctx.heap_strict
             for k, vb_ in sb.heap.items():
                 if k not in heap:
                     heap[k] = vb_
@@ -567,8 +569,10 @@ class Interp:
                                 raise Unmergeable()
                         else:
                             heap[k] = s.merge_obj(ca, va_, vb_, ot[k])
+            E.HEAP_STRICT[0] = False
             val = tuple(merge_typed(ca, p, q, t) for p, q, t in zip(va, vb, ta))
         except Unmergeable:
+            E.HEAP_STRICT[0] = False
             return None
         s.ctx.merges += 1
         ns = State()
@@ -656,6 +660,8 @@ class Interp:
                     if cnd is False:
                         pred, blk = blk, b['succs'][1]
                         break
+                    if c.verbose and os.environ.get('DBGCOND'):
+                        print(f'   symbolic branch in {short(f["name"])} line {ins.get("line")}', flush=True)
                     ft = s.feasible(st.pc, cnd)
                     ff = s.feasible(st.pc, z3.Not(cnd))
                     if ft and not ff:
@@ -928,6 +934,17 @@ class Interp:
         elif op == 'Index':
             x = s.operand(fr, A[0], st)
             i = s.index_val(fr, A[1], st, ins['x']['it'])
+            if isinstance(x, Str):
+                s.vc(st, And(sge(i, 0), slt(i, len(x.b))), s.lbl(fr, ins))
+                i = simp_i(i)
+                if is_sym(i):
+                    r = x.b[-1]
+                    for j in range(len(x.b) - 2, -1, -1):
+                        r = ite_bv(i == j, x.b[j], r, 8)
+                    R[ins['reg']] = r
+                else:
+                    R[ins['reg']] = x.b[i]
+                return
             s.vc(st, And(sge(i, 0), slt(i, len(x))), s.lbl(fr, ins))
             v, _ = get_path(x, (simp_i(i),), ins['x']['xt'])
             R[ins['reg']] = v
@@ -1519,6 +1536,10 @@ class Interp:
             return [(st, z3.If(le, A_, B_) if name == 'min' else z3.If(le, B_, A_))]
         if name == 'recover':
             return [(st, None)]
+        if name == 'ssa:wrapnilchk':
+            if args[0] is None:
+                s.violated(st, s.lbl(fr, ins, 'nil-receiver-in-wrapper'))
+            return [(st, args[0])]
         raise Unsupported('builtin ' + name)
 
     def do_copy(s, st, dst, src):
